@@ -19,7 +19,7 @@ RULE = ('Fault plans = (backend in {Local, S3Compatible, B2}, operation in {exis
         'download_stream, delete, list_files over several pages}, payload of 0..3 stream chunks with plain or command-style '
         'wrapped streams, fault position {before the first byte, after c stream chunks, after the last byte / before the '
         'response, inside the response body}, fault kind {OSError at a chosen file primitive; connect/read/write transport '
-        'errors, 500/503, 429 (+Retry-After), B2 401 expired/bad token, faults on B2 auxiliary calls}, run length r in '
+        'errors, 500/503 with XML, HTML, plain-text, JSON or empty error bodies, 429 (+Retry-After), B2 401 expired/bad token, faults on B2 auxiliary calls}, run length r in '
         '{1,2,3,4,5,persistent}). The small grid (operation x position x kind x r<=5, 3-chunk payloads) is enumerated '
         'completely in the thorough tier; other plans are Hypothesis-generated. Oracle: r <= tries-1 => the call succeeds, the '
         'store holds exactly the payload under exactly that name, nothing else appeared, a download sink holds exactly the '
@@ -57,6 +57,7 @@ def cases(draw):
     else:
         c['kind'] = draw(st.sampled_from(S3_KINDS if backend == 's3c' else B2_KINDS))
         c['retry_after'] = draw(st.sampled_from([None, 0, 1]))
+        c['error_body'] = draw(st.sampled_from(['xml', 'xml', 'html', 'text', 'json', 'empty']))
         if backend == 'b2':
             c['target'] = draw(st.sampled_from(['main', 'main', 'main', 'authorize', 'list_buckets'] +
                                                (['get_upload_url', 'get_upload_url'] if op in ('upload', 'upload_stream') else [])))
@@ -310,7 +311,7 @@ def _run(case, work, loop):
                 f = {'at': 'response-body', 'after': case['after']} if has_body else {'at': 'before-response'}
             elif kind.startswith('status'):
                 code = int(kind[6:9])
-                f = {'at': 'status', 'status': code, 'retry_after': case.get('retry_after')}
+                f = {'at': 'status', 'status': code, 'retry_after': case.get('retry_after'), 'body': case.get('error_body', 'xml')}
                 if kind.endswith('expired'):
                     f['code'] = 'expired_auth_token'
                 elif kind.endswith('bad'):
